@@ -454,3 +454,444 @@ Proof.
   intros strict args e H. pose proof (decode_api_raises strict args) as R. rewrite H in R.
   destruct R as [[-> | [-> | ->]] | [-> | [-> | [-> | [-> | [_ ->]]]]]]; reflexivity.
 Qed.
+
+(* ================================================================================================ *)
+(* 6. C10: the checksum flag                                                                         *)
+
+(* ---- XOR ---- *)
+Lemma xor_bytes_app : forall a b, xor_bytes (a ++ b) = Z.lxor (xor_bytes a) (xor_bytes b).
+Proof.
+  induction a as [|x a IH]; intros b; simpl.
+  - reflexivity.
+  - rewrite IH, Z.lxor_assoc. reflexivity.
+Qed.
+
+Lemma lxor_cancel_l : forall a x y, Z.lxor a x = Z.lxor a y -> x = y.
+Proof.
+  intros a x y H.
+  assert (Hx : Z.lxor a (Z.lxor a x) = x) by (rewrite <- Z.lxor_assoc, Z.lxor_nilpotent, Z.lxor_0_l; reflexivity).
+  assert (Hy : Z.lxor a (Z.lxor a y) = y) by (rewrite <- Z.lxor_assoc, Z.lxor_nilpotent, Z.lxor_0_l; reflexivity).
+  rewrite <- Hx, <- Hy, H. reflexivity.
+Qed.
+
+Lemma lxor_cancel_r : forall a x y, Z.lxor x a = Z.lxor y a -> x = y.
+Proof. intros a x y H. rewrite (Z.lxor_comm x a), (Z.lxor_comm y a) in H. eapply lxor_cancel_l; eauto. Qed.
+
+(* substituting one byte by a different one always changes the XOR (any position, any context, any values) *)
+Theorem xor_subst : forall l1 b b' l2, b <> b' -> xor_bytes (l1 ++ b :: l2) <> xor_bytes (l1 ++ b' :: l2).
+Proof.
+  intros l1 b b' l2 Hne H. rewrite !xor_bytes_app in H. simpl in H.
+  apply lxor_cancel_l in H. apply lxor_cancel_r in H. contradiction.
+Qed.
+
+Lemma fold_lxor : forall l a, fold_left Z.lxor l a = Z.lxor a (xor_bytes l).
+Proof.
+  induction l as [|x l IH]; intros a; simpl.
+  - rewrite Z.lxor_0_r. reflexivity.
+  - rewrite IH, Z.lxor_assoc. reflexivity.
+Qed.
+
+Lemma reduce_xor_init_spec : forall l, reduce_xor_init l 0 = xor_bytes l.
+Proof. intros. unfold reduce_xor_init. rewrite fold_lxor, Z.lxor_0_l. reflexivity. Qed.
+
+(* ---- split ---- *)
+Definition sep_free (sep : Z) (l : list Z) : Prop := forallb (fun c => negb (c =? sep)) l = true.
+
+Lemma bsplit_sep_free : forall sep l, sep_free sep l -> bsplit sep l = [l].
+Proof.
+  unfold sep_free. induction l as [|c r IH]; intros H; simpl in *; [reflexivity|].
+  apply andb_true_iff in H as [Hc Hr]. apply negb_true_iff in Hc. rewrite Hc, (IH Hr). reflexivity.
+Qed.
+
+Lemma bsplit_app_sep : forall sep a b, sep_free sep a -> bsplit sep (a ++ sep :: b) = a :: bsplit sep b.
+Proof.
+  unfold sep_free. induction a as [|c r IH]; intros b H; simpl in *.
+  - rewrite Z.eqb_refl. reflexivity.
+  - apply andb_true_iff in H as [Hc Hr]. apply negb_true_iff in Hc. rewrite Hc, (IH b Hr). reflexivity.
+Qed.
+
+Lemma bsplit_max1_app_sep : forall sep a b, sep_free sep a -> bsplit_max sep (a ++ sep :: b) 1 = [a; b].
+Proof.
+  unfold sep_free. induction a as [|c r IH]; intros b H; simpl in *.
+  - rewrite Z.eqb_refl. destruct b; reflexivity.
+  - apply andb_true_iff in H as [Hc Hr]. apply negb_true_iff in Hc. rewrite Hc.
+    specialize (IH b Hr). simpl in IH. rewrite IH. reflexivity.
+Qed.
+
+(* the fields of l, and of l followed by separator-free text: only the last field grows *)
+Lemma bsplit_decomp : forall sep l suf, sep_free sep suf ->
+  exists pre lf, bsplit sep l = pre ++ [lf] /\ bsplit sep (l ++ suf) = pre ++ [lf ++ suf] /\ incl lf l.
+Proof.
+  intros sep l suf Hs. induction l as [|c r IH].
+  - exists [], []. simpl. rewrite (bsplit_sep_free sep suf Hs). repeat split. apply incl_refl.
+  - destruct IH as [pre [lf [E1 [E2 Hin]]]]. simpl. rewrite E1, E2.
+    destruct (c =? sep).
+    + exists ([] :: pre), lf. repeat split. apply incl_tl; exact Hin.
+    + destruct pre as [|h t]; simpl.
+      * exists [], (c :: lf). repeat split. apply incl_cons; [left; reflexivity | apply incl_tl; exact Hin].
+      * exists ((c :: h) :: t), lf. repeat split. apply incl_tl; exact Hin.
+Qed.
+
+Lemma sep_free_incl : forall sep a b, incl a b -> sep_free sep b -> sep_free sep a.
+Proof.
+  unfold sep_free. intros sep a b Hi Hb. rewrite forallb_forall in *. intros x Hx. apply Hb, Hi, Hx.
+Qed.
+
+(* ---- slicing and stripping ---- *)
+Lemma py_slice_tail : forall A (x : A) l, py_slice (x :: l) (Some 1) None = l.
+Proof.
+  intros. unfold py_slice, norm_index. replace (1 <? 0) with false by reflexivity.
+  set (len := Z.of_nat (List.length (x :: l))).
+  assert (Hlen : len = Z.of_nat (List.length l) + 1) by (unfold len; simpl List.length; lia).
+  rewrite Z.min_l by lia. replace (Z.to_nat 1) with 1%nat by reflexivity. simpl skipn.
+  replace (Z.to_nat (len - 1)) with (List.length l) by lia. apply firstn_all.
+Qed.
+
+Lemma lstrip_nonspace : forall d l, is_space d = false -> lstrip (d :: l) = d :: l.
+Proof. intros d l H. simpl. rewrite H. reflexivity. Qed.
+
+Lemma rstrip_nonspace_last : forall l x, is_space x = false -> rstrip (l ++ [x]) = l ++ [x].
+Proof.
+  induction l as [|c r IH]; intros x H; simpl.
+  - rewrite H. reflexivity.
+  - rewrite (IH x H). destruct (r ++ [x]) eqn:E; [destruct r; discriminate | reflexivity].
+Qed.
+
+(* ---- two hex digits ---- *)
+Definition hex_table : list (Z * Z) :=
+  [(48, 0); (49, 1); (50, 2); (51, 3); (52, 4); (53, 5); (54, 6); (55, 7); (56, 8); (57, 9);
+   (65, 10); (66, 11); (67, 12); (68, 13); (69, 14); (70, 15);
+   (97, 10); (98, 11); (99, 12); (100, 13); (101, 14); (102, 15)].
+
+Lemma hexdigit_table : forall c a, hexdigit c = Some a -> In (c, a) hex_table.
+Proof.
+  intros c a H. unfold hexdigit in H.
+  destruct ((48 <=? c) && (c <=? 57)) eqn:E1.
+  - apply andb_true_iff in E1 as [A B]. apply Z.leb_le in A, B. inversion H; subst a.
+    assert (c = 48 \/ c = 49 \/ c = 50 \/ c = 51 \/ c = 52 \/ c = 53 \/ c = 54 \/ c = 55 \/ c = 56 \/ c = 57) by lia.
+    unfold hex_table. repeat (destruct H0 as [-> | H0]; [simpl; tauto|]). subst; simpl; tauto.
+  - destruct ((65 <=? c) && (c <=? 70)) eqn:E2.
+    + apply andb_true_iff in E2 as [A B]. apply Z.leb_le in A, B. inversion H; subst a.
+      assert (c = 65 \/ c = 66 \/ c = 67 \/ c = 68 \/ c = 69 \/ c = 70) by lia.
+      unfold hex_table. repeat (destruct H0 as [-> | H0]; [simpl; tauto|]). subst; simpl; tauto.
+    + destruct ((97 <=? c) && (c <=? 102)) eqn:E3; [|discriminate].
+      apply andb_true_iff in E3 as [A B]. apply Z.leb_le in A, B. inversion H; subst a.
+      assert (c = 97 \/ c = 98 \/ c = 99 \/ c = 100 \/ c = 101 \/ c = 102) by lia.
+      unfold hex_table. repeat (destruct H0 as [-> | H0]; [simpl; tauto|]). subst; simpl; tauto.
+Qed.
+
+Lemma hex2_table_check :
+  forallb (fun p1 => forallb (fun p2 =>
+      match py_int_bytes 16 [fst p1; fst p2] with
+      | Ok v => (v =? 16 * snd p1 + snd p2) && negb (is_space (fst p2)) && negb (fst p1 =? 42) && negb (fst p2 =? 42)
+                && negb (fst p1 =? 44) && negb (fst p2 =? 44)
+      | Raise _ => false
+      end) hex_table) hex_table = true.
+Proof. vm_compute. reflexivity. Qed.
+
+(* int(b"h1h2", 16) of two hex digits (either case) is their value; and they are neither blank, '*' nor ',' *)
+Lemma hex2_int : forall h1 h2 v, hexval h1 h2 = Some v ->
+  py_int_bytes 16 [h1; h2] = Ok v /\ is_space h2 = false /\ sep_free 42 [h1; h2] /\ sep_free 44 [42; h1; h2].
+Proof.
+  intros h1 h2 v H. unfold hexval in H.
+  destruct (hexdigit h1) as [a|] eqn:E1; [|discriminate]. destruct (hexdigit h2) as [b|] eqn:E2; [|discriminate].
+  inversion H; subst v; clear H.
+  pose proof hex2_table_check as T. rewrite forallb_forall in T.
+  specialize (T _ (hexdigit_table _ _ E1)). rewrite forallb_forall in T.
+  specialize (T _ (hexdigit_table _ _ E2)). simpl fst in T. simpl snd in T.
+  destruct (py_int_bytes 16 [h1; h2]) as [v|e]; [|discriminate].
+  rewrite !andb_true_iff in T. destruct T as [[[[[T1 T2] T3] T4] T5] T6].
+  apply Z.eqb_eq in T1. subst v. apply negb_true_iff in T2.
+  unfold sep_free. simpl. rewrite T3, T4, T5, T6. auto.
+Qed.
+
+(* ---- chk_to_int on "<fill>*h1h2" ---- *)
+Lemma chk_to_int_hex2 : forall lf h1 h2 v, sep_free 42 lf -> hexval h1 h2 = Some v ->
+  exists fill, chk_to_int (lf ++ [42; h1; h2]) = Ok (fill, v).
+Proof.
+  intros lf h1 h2 v Hlf Hv. destruct (hex2_int _ _ _ Hv) as [Hint [_ [Hsf _]]].
+  unfold chk_to_int.
+  assert (Nat.eqb (List.length (lf ++ [42; h1; h2])) 0 = false) as ->.
+  { rewrite app_length. simpl. destruct (List.length lf); reflexivity. }
+  change (lf ++ [42; h1; h2]) with (lf ++ ASTERISK :: [h1; h2]).
+  rewrite (bsplit_app_sep ASTERISK lf [h1; h2] Hlf), (bsplit_sep_free ASTERISK [h1; h2] Hsf).
+  simpl unpack2. simpl mmap. simpl try_except at 1. simpl bind at 1.
+  destruct (try_value_error_total _ (py_int_bytes 10 lf) [HPy ValueError] 0
+              (py_int_bytes_raises 10 lf) eq_refl) as [f ->].
+  rewrite Hint. simpl. eexists; reflexivity.
+Qed.
+
+Lemma compute_checksum_body : forall d body h1 h2, sep_free 42 body ->
+  compute_checksum (d :: body ++ [42; h1; h2]) = Ok (xor_bytes body).
+Proof.
+  intros d body h1 h2 Hb. unfold compute_checksum.
+  rewrite py_slice_tail.
+  change (body ++ [42; h1; h2]) with (body ++ ASTERISK :: [h1; h2]).
+  rewrite (bsplit_max1_app_sep ASTERISK body [h1; h2] Hb), py_index_0. simpl bind.
+  rewrite reduce_xor_init_spec. reflexivity.
+Qed.
+
+(* NMEASentence.__init__ : the flag *)
+Lemma nmea_init_valid : forall d body h1 h2 v c,
+  d <> 42 -> star_free body = true -> hexval h1 h2 = Some v ->
+  nmea_init (sentence_text d body h1 h2) = Ok c ->
+  c_is_valid c = (v =? xor_bytes body).
+Proof.
+  intros d body h1 h2 v c Hd Hb Hv H. unfold sentence_text, STAR in *.
+  assert (Hb' : sep_free 42 body) by exact Hb.
+  destruct (hex2_int _ _ _ Hv) as [_ [_ [_ Hcomma]]].
+  destruct (bsplit_decomp COMMA (d :: body) [42; h1; h2] Hcomma) as [pre [lf [_ [E2 Hin]]]].
+  assert (Hlf : sep_free 42 lf).
+  { eapply sep_free_incl; [exact Hin|]. unfold sep_free. simpl.
+    apply Z.eqb_neq in Hd. rewrite Hd. exact Hb'. }
+  destruct (chk_to_int_hex2 lf h1 h2 v Hlf Hv) as [fill Hchk].
+  pose proof (compute_checksum_body d body h1 h2 Hb') as Hcc.
+  change ((d :: body) ++ [42; h1; h2]) with (d :: body ++ [42; h1; h2]) in E2.
+  remember (d :: body ++ [42; h1; h2]) as raw eqn:Eraw. clear Eraw.
+  unfold nmea_init in H.
+  apply bind_ok in H as [ff [_ H]].
+  apply bind_ok in H as [[t y] [_ H]]. cbv beta iota in H.
+  rewrite (py_index_last _ _ [] (bsplit_nonempty _ _)), E2, last_last in H. simpl bind at 1 in H.
+  rewrite Hchk in H. simpl bind at 1 in H.
+  rewrite Hcc in H. simpl bind at 1 in H.
+  inversion H; subst c; reflexivity.
+Qed.
+
+Lemma set_tag_block_valid : forall s t,
+  c_is_valid (sentence_common (sentence_set_tag_block s t)) = c_is_valid (sentence_common s).
+Proof. intros [a|g] t; reflexivity. Qed.
+
+Lemma produce_inner_valid : forall d body h1 h2 v s,
+  d <> 42 -> star_free body = true -> hexval h1 h2 = Some v ->
+  produce_inner (sentence_text d body h1 h2) = Ok s ->
+  c_is_valid (sentence_common s) = (v =? xor_bytes body).
+Proof.
+  intros d body h1 h2 v s Hd Hb Hv H.
+  apply produce_inner_ok in H as [[a [-> Ha]] | [g [-> Hg]]]; simpl.
+  - apply ais_init_ok in Ha as [Hn _]. eapply nmea_init_valid; eauto.
+  - apply gatehouse_init_ok in Hg. eapply nmea_init_valid; eauto.
+Qed.
+
+Lemma strip_sentence_text : forall pre body h1 h2 v, (forall x l, pre = x :: l -> is_space x = false) ->
+  (pre = [] -> False) -> hexval h1 h2 = Some v ->
+  strip (pre ++ body ++ [42; h1; h2]) = pre ++ body ++ [42; h1; h2].
+Proof.
+  intros pre body h1 h2 v Hpre Hne Hv. destruct (hex2_int _ _ _ Hv) as [_ [Hsp _]].
+  destruct pre as [|x l]; [contradiction Hne; reflexivity|].
+  unfold strip. simpl app. rewrite lstrip_nonspace by (eapply Hpre; reflexivity).
+  replace (x :: l ++ body ++ [42; h1; h2]) with ((x :: l ++ body ++ [42; h1]) ++ [h2]).
+  - apply rstrip_nonspace_last; exact Hsp.
+  - simpl. rewrite <- !app_assoc. reflexivity.
+Qed.
+
+(* C10, first clause: a parsed sentence is flagged valid iff the two hex digits equal the XOR of the body *)
+Theorem valid_iff : forall d body h1 h2 v s,
+  is_space d = false -> d <> 92 -> d <> 42 ->
+  star_free body = true -> hexval h1 h2 = Some v ->
+  produce (sentence_text d body h1 h2) = Ok s ->
+  c_is_valid (sentence_common s) = (v =? xor_bytes body).
+Proof.
+  intros d body h1 h2 v s Hsp Hbs Hd Hb Hv H.
+  assert (Hstrip : strip (sentence_text d body h1 h2) = sentence_text d body h1 h2).
+  { apply (strip_sentence_text [d] body h1 h2 v); auto; [|discriminate].
+    intros x l E; inversion E; subst; exact Hsp. }
+  unfold produce in H. rewrite Hstrip in H.
+  destruct (Nat.eqb _ _); [discriminate|].
+  unfold pre_process in H. rewrite Hstrip in H. unfold sentence_text at 1 in H. rewrite py_index_0 in H.
+  simpl bind at 2 in H.
+  assert (d =? TAG_BLOCK_START = false) as E by (apply Z.eqb_neq; exact Hbs). rewrite E in H.
+  simpl bind at 1 in H. cbv beta iota in H.
+  apply bind_ok in H as [s0 [Hs0 H]]. inversion H; subst s0.
+  eapply produce_inner_valid; eauto.
+Qed.
+
+(* ---- the same behind a tag block ---- *)
+Lemma bfind_from_app : forall needle a r i, sep_free needle a ->
+  bfind_from needle (a ++ needle :: r) i = i + Z.of_nat (List.length a).
+Proof.
+  unfold sep_free. induction a as [|c a IH]; intros r i H; simpl in *.
+  - rewrite Z.eqb_refl. lia.
+  - apply andb_true_iff in H as [Hc Ha]. apply negb_true_iff in Hc. rewrite Hc, (IH r (i + 1) Ha). lia.
+Qed.
+
+Lemma py_slice_from : forall A (a b : list A), py_slice (a ++ b) (Some (Z.of_nat (List.length a))) None = b.
+Proof.
+  intros. unfold py_slice, norm_index. rewrite app_length.
+  destruct (Z.of_nat (List.length a) <? 0) eqn:E; [apply Z.ltb_lt in E; lia|].
+  rewrite Z.min_l by lia. rewrite Nat2Z.id, skipn_app, skipn_all, Nat.sub_diag. simpl.
+  replace (Z.to_nat (Z.of_nat (List.length a + List.length b) - Z.of_nat (List.length a))) with (List.length b) by lia.
+  apply firstn_all.
+Qed.
+
+Theorem valid_iff_tag_block : forall tb d body h1 h2 v s,
+  sep_free 92 tb -> d <> 42 -> star_free body = true -> hexval h1 h2 = Some v ->
+  produce (92 :: tb ++ 92 :: sentence_text d body h1 h2) = Ok s ->
+  c_is_valid (sentence_common s) = (v =? xor_bytes body).
+Proof.
+  intros tb d body h1 h2 v s Htb Hd Hb Hv H.
+  set (text := sentence_text d body h1 h2) in *.
+  assert (Hstrip : strip (92 :: tb ++ 92 :: text) = 92 :: tb ++ 92 :: text).
+  { replace (92 :: tb ++ 92 :: text) with ((92 :: tb ++ [92; d]) ++ body ++ [42; h1; h2]).
+    - apply (strip_sentence_text _ body h1 h2 v); auto; [|discriminate].
+      intros x l E; inversion E; subst; reflexivity.
+    - unfold text, sentence_text, STAR. simpl. rewrite <- app_assoc. reflexivity. }
+  unfold produce in H. rewrite Hstrip in H.
+  destruct (Nat.eqb _ _); [discriminate|].
+  unfold pre_process in H. rewrite Hstrip, py_index_0 in H. simpl bind at 2 in H.
+  unfold TAG_BLOCK_START in H. replace (92 =? 92) with true in H by reflexivity.
+  rewrite py_slice_tail in H. unfold bfind in H. rewrite (bfind_from_app 92 tb text 0 Htb) in H.
+  simpl bind at 1 in H. cbv beta iota in H.
+  replace (py_slice (92 :: tb ++ 92 :: text) (Some (Z.of_nat (List.length tb) + 1 + 1)) None) with text in H.
+  - apply bind_ok in H as [s0 [Hs0 H]].
+    assert (Hflag : c_is_valid (sentence_common s0) = (v =? xor_bytes body))
+      by exact (produce_inner_valid d body h1 h2 v s0 Hd Hb Hv Hs0).
+    destruct (nonempty _); inversion H; subst s; [rewrite set_tag_block_valid|]; exact Hflag.
+  - replace (92 :: tb ++ 92 :: text) with ((92 :: tb ++ [92]) ++ text) by (simpl; rewrite <- app_assoc; reflexivity).
+    replace (Z.of_nat (List.length tb) + 1 + 1) with (Z.of_nat (List.length (92 :: tb ++ [92])))
+      by (simpl List.length; rewrite app_length; simpl; lia).
+    symmetry. apply py_slice_from.
+Qed.
+
+(* ---- assembly: the flag of an assembled message is the conjunction of the flags of its parts ---- *)
+Definition ais_valid (m : ais_sentence) : bool := c_is_valid (a_common m).
+
+Lemma forallb_insert_by_frag : forall f m l, forallb f (insert_by_frag m l) = f m && forallb f l.
+Proof.
+  induction l as [|x l IH]; simpl; [reflexivity|].
+  destruct (a_frag_num m <? a_frag_num x); simpl.
+  - reflexivity.
+  - rewrite IH. destruct (f m), (f x); reflexivity.
+Qed.
+
+Lemma forallb_sort_by_frag : forall f l, forallb f (sort_by_frag l) = forallb f l.
+Proof.
+  unfold sort_by_frag. induction l as [|x l IH]; simpl; [reflexivity|].
+  rewrite forallb_insert_by_frag, IH. reflexivity.
+Qed.
+
+Theorem assembled_valid : forall parts s, assemble_from_iterable parts = Ok s ->
+  c_is_valid (a_common s) = forallb ais_valid parts.
+Proof.
+  intros parts s H. unfold assemble_from_iterable in H. destruct parts as [|first rest]; [discriminate|].
+  inversion H; subst s; clear H.
+  change (forallb ais_valid (sort_by_frag (first :: rest)) = forallb ais_valid (first :: rest)).
+  apply forallb_sort_by_frag.
+Qed.
+
+(* ---- decode(): which sentences were parsed, and the flag of the result ---- *)
+Fixpoint parse_all (parts : list bytes) : M (list sentence) :=
+  match parts with
+  | [] => Ok []
+  | p :: rest => bind (produce p) (fun s => bind (parse_all rest) (fun ss => Ok (s :: ss)))
+  end.
+
+Definition sentence_valid (s : sentence) : bool := c_is_valid (sentence_common s).
+Definition ais_of (ss : list sentence) : list ais_sentence :=
+  flat_map (fun s => match s with SAis a => [a] | SGatehouse _ => [] end) ss.
+
+Lemma assemble_loop_collects : forall strict args temp frags frag_cnt temp' frags' c',
+  assemble_loop strict args temp frags frag_cnt = Ok (temp', frags', c') ->
+  exists ss, parse_all args = Ok ss /\ temp' = temp ++ ais_of ss /\
+             (strict = true -> forallb sentence_valid ss = true).
+Proof.
+  intros strict args. induction args as [|msg rest IH]; intros temp frags frag_cnt temp' frags' c' H; simpl in H.
+  - inversion H; subst. exists []. simpl. rewrite app_nil_r. auto.
+  - apply bind_ok in H as [s [Hs H]].
+    destruct (strict && negb (c_is_valid (sentence_common s))) eqn:E; [discriminate|].
+    assert (Hv : strict = true -> sentence_valid s = true).
+    { intros ->. simpl in E. apply negb_false_iff in E. exact E. }
+    destruct s as [a|g]; apply IH in H as [ss [Hp [Ht Hval]]].
+    + exists (SAis a :: ss). simpl. rewrite Hs, Hp. simpl. split; [reflexivity|]. split.
+      * rewrite Ht, <- app_assoc. reflexivity.
+      * intros Hst. rewrite (Hv Hst), (Hval Hst). reflexivity.
+    + exists (SGatehouse g :: ss). simpl. rewrite Hs, Hp. simpl. split; [reflexivity|]. split.
+      * exact Ht.
+      * intros Hst. rewrite (Hv Hst), (Hval Hst). reflexivity.
+Qed.
+
+(* the sentence decode() returns next to the message is flagged valid iff every AIS part is *)
+Theorem decode_flag : forall strict parts s msg, decode_api strict parts = Ok (s, msg) ->
+  exists ss, parse_all parts = Ok ss /\ c_is_valid (a_common s) = forallb ais_valid (ais_of ss).
+Proof.
+  intros strict parts s msg H. unfold decode_api in H.
+  apply bind_ok in H as [nmea [Hn H]]. apply bind_ok in H as [m [_ H]]. inversion H; subst; clear H.
+  unfold assemble_messages in Hn.
+  apply bind_ok in Hn as [[[temp frags] c] [Hloop Hn]]. cbv beta iota in Hn.
+  destruct (Nat.eqb _ _); [discriminate|]. destruct (_ >? c); [discriminate|]. destruct (nonempty _); [discriminate|].
+  apply assemble_loop_collects in Hloop as [ss [Hp [Ht _]]]. simpl in Ht. subst temp.
+  exists ss. split; [exact Hp|]. apply assembled_valid; exact Hn.
+Qed.
+
+(* ---- strict mode ---- *)
+Lemma assemble_loop_strict : forall args ss temp frags frag_cnt, parse_all args = Ok ss ->
+  (forallb sentence_valid ss = true ->
+     assemble_loop true args temp frags frag_cnt = assemble_loop false args temp frags frag_cnt) /\
+  (forallb sentence_valid ss = false ->
+     assemble_loop true args temp frags frag_cnt = Raise (Lib InvalidNMEAChecksum)).
+Proof.
+  induction args as [|msg rest IH]; intros ss temp frags frag_cnt Hp; simpl in Hp.
+  - inversion Hp; subst. simpl. split; [reflexivity | discriminate].
+  - apply bind_ok in Hp as [s [Hs Hp]]. apply bind_ok in Hp as [ss' [Hss Hp]]. inversion Hp; subst ss; clear Hp.
+    simpl. rewrite Hs. simpl. unfold sentence_valid at 1 3.
+    destruct (c_is_valid (sentence_common s)) eqn:Ev; simpl.
+    + destruct s as [a|g]; apply IH; exact Hss.
+    + split; [discriminate | reflexivity].
+Qed.
+
+(* C10, strict clause: if all parts parse, strict decode() raises InvalidNMEAChecksum iff some part is invalid,
+   and otherwise returns exactly what lenient decode() returns *)
+Theorem strict_iff : forall parts ss, parse_all parts = Ok ss ->
+  (decode_api true parts = Raise (Lib InvalidNMEAChecksum) <-> forallb sentence_valid ss = false) /\
+  (forallb sentence_valid ss = true -> decode_api true parts = decode_api false parts).
+Proof.
+  intros parts ss Hp.
+  assert (Heq : forallb sentence_valid ss = true -> decode_api true parts = decode_api false parts).
+  { intros Hv. unfold decode_api, assemble_messages.
+    rewrite (proj1 (assemble_loop_strict parts ss [] [] 1 Hp) Hv). reflexivity. }
+  split; [split|exact Heq].
+  - intros Hr. destruct (forallb sentence_valid ss) eqn:Ev; [|reflexivity].
+    rewrite (Heq eq_refl) in Hr. pose proof (decode_api_raises false parts) as R. rewrite Hr in R.
+    destruct R as [[R | [R | R]] | [R | [R | [R | [R | [R _]]]]]]; discriminate.
+  - intros Hv. unfold decode_api, assemble_messages.
+    rewrite (proj2 (assemble_loop_strict parts ss [] [] 1 Hp) Hv). reflexivity.
+Qed.
+
+(* ---- the corollary: single-byte corruption of the body ---- *)
+Lemma star_free_subst : forall l1 b b' l2, star_free (l1 ++ b :: l2) = true -> b' <> 42 ->
+  star_free (l1 ++ b' :: l2) = true.
+Proof.
+  unfold star_free. intros l1 b b' l2 H Hb. rewrite forallb_app in *. simpl in *.
+  apply andb_true_iff in H as [H1 H2]. apply andb_true_iff in H2 as [_ H2].
+  rewrite H1, H2. unfold STAR. apply Z.eqb_neq in Hb. rewrite Hb. reflexivity.
+Qed.
+
+(* a sentence with a correct checksum in which one body byte is replaced by a different byte other than '*'
+   is either rejected by the parser or parsed and flagged invalid ... *)
+Theorem substitution_detected : forall d l1 b b' l2 h1 h2,
+  is_space d = false -> d <> 92 -> d <> 42 ->
+  star_free (l1 ++ b :: l2) = true -> hexval h1 h2 = Some (xor_bytes (l1 ++ b :: l2)) ->
+  b' <> b -> b' <> 42 ->
+  match produce (sentence_text d (l1 ++ b' :: l2) h1 h2) with
+  | Ok s => c_is_valid (sentence_common s) = false
+  | Raise _ => True
+  end.
+Proof.
+  intros d l1 b b' l2 h1 h2 Hsp Hbs Hd Hsf Hv Hne Hst.
+  destruct (produce _) as [s|e] eqn:E; [|exact I].
+  rewrite (valid_iff d (l1 ++ b' :: l2) h1 h2 _ s Hsp Hbs Hd (star_free_subst _ _ _ _ Hsf Hst) Hv E).
+  apply Z.eqb_neq. apply xor_subst. congruence.
+Qed.
+
+(* ... and strict decode() never returns a message for it *)
+Theorem substitution_rejected_strict : forall d l1 b b' l2 h1 h2,
+  is_space d = false -> d <> 92 -> d <> 42 ->
+  star_free (l1 ++ b :: l2) = true -> hexval h1 h2 = Some (xor_bytes (l1 ++ b :: l2)) ->
+  b' <> b -> b' <> 42 ->
+  is_ok (decode_api true [sentence_text d (l1 ++ b' :: l2) h1 h2]) = false.
+Proof.
+  intros d l1 b b' l2 h1 h2 Hsp Hbs Hd Hsf Hv Hne Hst.
+  pose proof (substitution_detected d l1 b b' l2 h1 h2 Hsp Hbs Hd Hsf Hv Hne Hst) as H.
+  unfold decode_api, assemble_messages. simpl assemble_loop.
+  destruct (produce _) as [s|e]; [|reflexivity].
+  simpl. rewrite H. reflexivity.
+Qed.
